@@ -5,6 +5,7 @@ from ...units import Unit, UnitEnvironment
 from .node_base import BaseNode
 from .node_select import SelectNode
 from ..datatypes import IntegerType,FloatType
+from ..settings import Numeric
 from ..solvers import NumericalSolver, FunctionSolver
 
 class IntegerNode(BaseNode, SelectNode):
@@ -43,6 +44,11 @@ class IntegerNode(BaseNode, SelectNode):
         if value is None and self.value_raw:
             self.value = IntegerType(self.cast_value(), self.units_raw, precision=self.precision, unsigned=self.unsigned)
         elif value is not None:
+            # unit conversion returns floats, e.g. 4720 mm = 471.99999999999994 cm
+            if np.asarray(value).dtype.kind=='f':
+                rounded = np.round(value)
+                if np.all(np.isclose(value, rounded, rtol=Numeric.PRECISION)):
+                    value = rounded.astype(int).tolist() if isinstance(rounded, np.ndarray) else int(rounded)
             self.value = IntegerType(value, self.units_raw, precision=self.precision, unsigned=self.unsigned)
         else:
             self.value = None
